@@ -687,6 +687,38 @@ fn watchdog_sweep(p: &str) -> String {
         !bad.is_empty(), total1, total_n, interval, bad.join("; ").replace('"', "'"))
 }
 
+/// The copy loops of CALLDATACOPY / CODECOPY / EXTCODECOPY / RETURNDATACOPY / CALL's return data: copying `iters` words
+/// with a watchdog polled every `interval` iterations must add exactly ceil(iters / interval) polls to what the same
+/// program with size 0 needs.
+fn copy_loop_polls(p: &str) -> String {
+    let iters = param(p, "iters").unwrap_or(16) as usize;
+    let interval = param(p, "interval").unwrap_or(4).max(1) as usize;
+    let polls = |opcode: u8, size: usize| {
+        let mut code = vec![0x61, (size >> 8) as u8, size as u8];
+        let extra = match opcode { 0x3c => 3, 0xf1 => 6, _ => 2 };
+        code.extend(std::iter::repeat(0x5f).take(extra));
+        code.push(opcode);
+        code.push(0x00);
+        let stream = InstructionStream::try_from(code.as_slice()).expect("disassembles");
+        let wd = std::rc::Rc::new(CountingWatchdog { polls: std::cell::Cell::new(0), stop_from: usize::MAX, interval });
+        let mut vm = VM::new(stream, Config::default(), wd.clone()).expect("vm");
+        let ok = vm.execute().is_ok();
+        (wd.polls.get(), ok)
+    };
+    let expect = (iters + interval - 1) / interval;
+    let mut bad = Vec::new();
+    for opcode in [0x37u8, 0x39, 0x3c, 0x3e, 0xf1] {
+        let (with, ok1) = polls(opcode, 32 * iters);
+        let (without, ok0) = polls(opcode, 0);
+        if !ok1 || !ok0 {
+            bad.push(format!("opcode {opcode:#x}: execution failed"));
+        } else if with < without || with - without != expect {
+            bad.push(format!("opcode {opcode:#x}: {} polls for {iters} iterations at interval {interval}, expected {expect}", with as isize - without as isize));
+        }
+    }
+    format!("{{\"violates\": {}, \"iters\": {}, \"interval\": {}, \"problems\": \"{}\"}}", !bad.is_empty(), iters, interval, bad.join("; "))
+}
+
 /// PUSH32 op(k-1) .. PUSH32 op0 <opcode>: the folded top of the stack must equal `want` (the EVM result, computed by the caller).
 fn composite_opcode(p: &str) -> String {
     let opcode = (param(p, "opcode").unwrap_or(0x1a) & 0xff) as u8;
@@ -812,6 +844,7 @@ fn main() {
         "stack_ops" => stack_ops(&p),
         "push_like" => push_like(&p),
         "composite_opcode" => composite_opcode(&p),
+        "copy_loop_polls" => copy_loop_polls(&p),
         "fork_keeps_storage" => fork_keeps_storage(&p),
         "mem_storage_wiring" => mem_storage_wiring(&p),
         "watchdog_sweep" => watchdog_sweep(&p),
